@@ -8,7 +8,7 @@ import re
 from .. import anchors as A
 from ..cfg import all_stmts
 from ..effects import func_writes, stmt_calls
-from ..metainterp import HostInterp, Instance, Raised, Record
+from ..metainterp import HostFn, HostInterp, Instance, Raised, Record
 from ..model import AnalysisError, call_name, dotted, is_self_attr, parent_map, short, src, str_value
 from .common import cfg_of, recv_name
 
@@ -1119,3 +1119,164 @@ def key_functions_are_not_memoised(ctx):
         bad is None,
         (f"`{bad[0].name}` is wrapped in `{short(bad[1], 30)}`: the memo is keyed by equality and hash of the argument, so an argument is given the key of an equal argument of another class seen earlier - the outcome of a call depends on earlier calls" if bad else ""),
     )
+
+
+# ---------------------------------------------------------------------------------------- the order function's protocol
+class _Ord:
+    """Stand-in for a member of the Order enum."""
+
+    def __init__(self, name):
+        self.name = name
+
+    def opposite(self):
+        return {"LESS": _ORD["MORE"], "MORE": _ORD["LESS"]}.get(self.name, self)
+
+    def __repr__(self):
+        return self.name
+
+
+_ORD = {n: _Ord(n) for n in ("LESS", "MORE", "SAME", "NONE")}
+for _o in _ORD.values():
+    for _n, _v in _ORD.items():
+        setattr(_o, _n, _v)
+
+
+def _ref_merge(orders):
+    s = {o.name for o in orders}
+    if s == {"SAME"}:
+        return _ORD["SAME"]
+    if not (s - {"LESS", "SAME"}):
+        return _ORD["LESS"]
+    if not (s - {"MORE", "SAME"}):
+        return _ORD["MORE"]
+    return _ORD["NONE"]
+
+
+def order_function_protocol(ctx):
+    """Interpret `typeorder` on operands that are records with or without an order hook, and on two parametrised
+    generics: the first operand's hook decides unless it declines (NotImplemented), then the second operand's hook,
+    mirrored; generics of the same origin are ordered by merging the orders of their argument pairs."""
+    import itertools
+
+    repo = ctx.repo
+    to = A.typeorder_fn(repo)
+    en = A.order_enum(repo)
+    ctx.touch(to)
+    NI = NotImplemented
+    funcs = {n: g.node for n, g in to.module.funcs.items() if g.parent is None and g.cls is None}
+
+    def interp(genv_extra):
+        order_ns = Record(merge=HostFn(lambda orders: _ref_merge(list(orders))), **_ORD)
+        genv = {en.name: order_ns, "NotImplemented": NI}
+        genv.update(genv_extra)
+        hi = HostInterp({}, Record(), {}, globals_env=genv, classes={}, functions=funcs)
+        hi.host_types = hi.host_types + (_Ord,)
+        return hi
+
+    # ---- hooks
+    answers = {"absent": None, "declines": NI, "LESS": _ORD["LESS"], "NONE": _ORD["NONE"]}
+    bad = None
+    n = 0
+    for a, b in itertools.product(answers, repeat=2):
+        def mk(ans, label):
+            r = Record(label=label)
+            if ans != "absent":
+                r.__type_order__ = HostFn(lambda other, v=answers[ans]: v)
+            return r
+
+        t1, t2 = mk(a, "t1"), mk(b, "t2")
+        hi = interp({"get_origin": lambda t: None, "get_args": lambda t: (), "issubclass": lambda x, y: False, "isinstance": lambda x, y: False})
+        try:
+            got = hi.call_function(to.node, [t1, t2], {}, {})
+        except (AnalysisError, Raised) as e:
+            raise AnalysisError(f"{to.key}: not interpretable: {e}")
+        n += 1
+        if a in ("LESS", "NONE"):
+            want = answers[a]
+        elif b in ("LESS", "NONE"):
+            want = answers[b].opposite()
+        else:
+            want = _ORD["NONE"]  # neither hook decides: the class fallback, stubbed as unrelated
+        if got is not want and bad is None:
+            bad = (a, b, got, want)
+    ctx.ob(
+        f"{to.key}:hook-protocol",
+        to.loc(),
+        f"the first operand's order hook decides unless it is absent or declines; then the second operand's hook decides, mirrored; then the class fallback ({n} combinations interpreted)",
+        bad is None,
+        (f"with the first operand's hook {bad[0]} and the second's answering {bad[1]} the order is {bad[2]} instead of {bad[3]}: a type whose own hook declines is never asked about from the other side, so typeorder(a, b) and typeorder(b, a) are no longer mirror images" if bad else ""),
+    )
+    # ---- generics of the same origin: merge of the argument orders
+    bad = None
+    n = 0
+    names = ("LESS", "MORE", "SAME", "NONE")
+    for x, y in itertools.product(names, repeat=2):
+        table = {("a0", "b0"): _ORD[x], ("a1", "b1"): _ORD[y]}
+
+        def arg(label):
+            r = Record(label=label)
+            r.__type_order__ = HostFn(lambda other, label=label: table.get((label, other.label), _ORD[{"LESS": "MORE", "MORE": "LESS"}.get(table[(other.label, label)].name, table[(other.label, label)].name)] if (other.label, label) in table else _ORD["NONE"]))
+            return r
+
+        a0, a1, b0, b1 = arg("a0"), arg("a1"), arg("b0"), arg("b1")
+        O = Record(label="O")
+        O.__type_order__ = HostFn(lambda other: _ORD["SAME"])
+        g1, g2 = Record(label="G1"), Record(label="G2")
+        origins = {id(g1): O, id(g2): O}
+        args = {id(g1): (a0, a1), id(g2): (b0, b1)}
+        hi = interp({"get_origin": lambda t: origins.get(id(t)), "get_args": lambda t: args.get(id(t), ()), "issubclass": lambda p, q: False, "isinstance": lambda p, q: False, "subclasscheck": lambda p, q: False})
+        hi.functions.pop("subclasscheck", None)
+        try:
+            got = hi.call_function(to.node, [g1, g2], {}, {})
+        except (AnalysisError, Raised) as e:
+            raise AnalysisError(f"{to.key}: not interpretable on generics: {e}")
+        n += 1
+        want = _ref_merge([_ORD[x], _ORD[y]])
+        if got is not want and bad is None:
+            bad = (x, y, got, want)
+    ctx.ob(
+        f"{to.key}:generic-arguments-merged",
+        to.loc(),
+        f"two parametrised generics of the same origin are ordered by merging the orders of their argument pairs ({n} combinations interpreted)",
+        bad is None,
+        (f"with argument orders {bad[0]} and {bad[1]} the generics compare {bad[2]} instead of {bad[3]}: list[Literal[0]] vs list[int] no longer follows Literal[0] vs int" if bad else ""),
+    )
+
+
+def combinators_keep_their_members(ctx):
+    """Union / Intersection store the members they are given, as given: a member that is itself a union or an
+    intersection stays one member."""
+    repo = ctx.repo
+    n = 0
+    for c in repo.all_classes():
+        if c.name not in ("Union", "Intersection") or "__init__" not in c.methods:
+            continue
+        init = c.methods["__init__"]
+        if not init.node.args.vararg:
+            continue
+        n += 1
+        ctx.touch(init)
+        methods = {k: v.node for k, v in c.methods.items()}
+        bad = None
+        for inner_cls in ("Union", "Intersection"):
+            inner = Instance(inner_cls, {})
+            inner.__dict__.update(types=("B", "C"), __args__=("B", "C"))
+            nested = Record(_handler=inner, _impl=inner, handler=inner, __args__=("B", "C"), types=("B", "C"))
+            me = Instance(c.name, methods)
+            hi = HostInterp({}, me, {}, globals_env={"type": lambda x: ("class", getattr(x, "_cls_name", type(x).__name__)), "isinstance": lambda x, k: isinstance(k, tuple) and len(k) == 2 and k[0] == "class" and getattr(x, "_cls_name", None) == k[1]}, classes={"Union": {}, "Intersection": {}, c.name: methods}, functions={})
+            try:
+                hi.call_function(init.node, [me, "A", nested], {}, {})
+            except (AnalysisError, Raised) as e:
+                raise AnalysisError(f"{init.key}: not interpretable: {e}")
+            stored = [v for k, v in me.__dict__.items() if isinstance(v, (tuple, list)) and not k.startswith("_cls")]
+            ok = bool(stored) and all(tuple(v) == ("A", nested) for v in stored)
+            if not ok and bad is None:
+                bad = (inner_cls, stored)
+        ctx.ob(
+            f"{init.key}:members-as-given",
+            init.loc(),
+            f"{c.name}[A, <a union or an intersection>] keeps two members",
+            bad is None,
+            (f"given A and a nested {bad[0]} of B and C, {c.name} stores {bad[1]}: {c.name}[{bad[0]}[B, C], A] becomes a flat combination of A, B and C - an intersection inside a union turns into alternatives, and a nested union no longer compares MORE than its own member" if bad else ""),
+        )
+    ctx.require(n >= 2, "expected the union and the intersection constructors")
